@@ -199,7 +199,12 @@ def merge_into(m, mm):
     for k, v in mm["hooks"].items():
         m["hooks"][k] = m["hooks"].get(k, 0) + v
     for k, v in mm["maxf"].items():
-        m["maxf"][k] = max(m["maxf"].get(k, 0.0), v)
+        # non-finite maxima are written as strings ("inf", "NaN") by the worker; keep them visible as such
+        cur = m["maxf"].get(k, 0.0)
+        if isinstance(v, str) or isinstance(cur, str):
+            m["maxf"][k] = v if isinstance(v, str) else cur
+        else:
+            m["maxf"][k] = max(cur, v)
     for k, v in mm["samples"].items():
         m["samples"].setdefault(k, [])
         if len(m["samples"][k]) < 1:
